@@ -1027,10 +1027,12 @@ class GroupCoordinator(BaseCoordinator):
                 (tp.partition, offset.offset, offset.metadata),
             )
 
+        req_generation = self.generation
+        req_member_id = self.member_id
         request = OffsetCommitRequest(
             self.group_id,
-            self.generation,
-            self.member_id,
+            req_generation,
+            req_member_id,
             OffsetCommitRequest.DEFAULT_RETENTION_TIME,
             list(offset_data.items()),
         )
@@ -1113,8 +1115,14 @@ class GroupCoordinator(BaseCoordinator):
                     )
                     if error_type is Errors.RebalanceInProgressError:
                         self.request_rejoin()
-                    else:
+                    elif (
+                        req_generation == self.generation
+                        and req_member_id == self.member_id
+                    ):
                         self.reset_generation()
+                    # Otherwise we already re-joined while this commit was in
+                    # flight: the error is about the previous generation and
+                    # must not wipe the identity we were just given.
                     errored[tp] = error
 
                 else:
